@@ -80,7 +80,9 @@ def dir_items(draw, depth, full, gopher_ok, toplevel, max_items=5, kinds=None, l
             name = name.split(".")[0] + draw(st.sampled_from([".gif", ".dat", ".jpg"] + ([] if full or not encnames else [".txt.gz", ".svgz", ".tgz", ".txt.Z", ".html.gz"])))
             item = {"kind": "bin", "content": draw(gen.binary_content)}
         elif kind == "dir":
-            item = {"kind": "dir", "items": draw(dir_items(depth - 1, full, gopher_ok, False, 3, kinds, longnames, encnames))}
+            # (one directory in six is empty: an explicit member with nothing below it when it lives in an archive)
+            item = {"kind": "dir", "items": [] if draw(st.integers(0, 5)) == 0 else
+                    draw(dir_items(depth - 1, full, gopher_ok, False, 3, kinds, longnames, encnames))}
         elif kind == "map":
             # (names listed in a gophermap cannot contain TAB/CR/LF whatever the protocol: TAB separates its fields)
             item = {"kind": "map", "items": draw(dir_items(depth - 1, full, True, False, 3,
